@@ -15,10 +15,30 @@ type Sources struct {
 	AllText string // main + modules, for samples/replay artefacts
 }
 
+// ObjModule is a host-provided Importable whose module value is a plain object (not a table).
+type ObjModule struct{ Obj tengo.Object }
+
+// Import implements tengo.Importable.
+func (m ObjModule) Import(string) (interface{}, error) { return m.Obj, nil }
+
+// ObjModules are always importable by generated programs: bare singletons and scalars as module values.
+func ObjModules() map[string]tengo.Object {
+	return map[string]tengo.Object{
+		"flagmod":  tengo.TrueValue,
+		"offmod":   tengo.FalseValue,
+		"undefmod": tengo.UndefinedValue,
+		"nummod":   &tengo.Int{Value: 97},
+		"listmod":  &tengo.ImmutableArray{Value: []tengo.Object{tengo.TrueValue, tengo.UndefinedValue, &tengo.String{Value: "a"}}},
+	}
+}
+
 // Print renders a program.
 func Print(p *gen.Program) Sources {
 	s := Sources{Main: gen.Print(p.Main), Mods: map[string]*gen.Printed{}, ModMap: tengo.NewModuleMap()}
 	s.AllText = s.Main.Src
+	for n, o := range ObjModules() {
+		s.ModMap.Add(n, ObjModule{o})
+	}
 	names := make([]string, 0, len(p.Modules))
 	for n := range p.Modules {
 		names = append(names, n)
